@@ -100,9 +100,13 @@ func (c *Cache) Commit() (err error) {
 	c.changes.mkdirAllMU.RLock()
 	defer c.changes.mkdirAllMU.RUnlock()
 	for src, filemode = range c.changes.mkdirAll {
-		if c.bufferFS.IsDir(src) {
-			if err = c.remoteFS.MkdirAll(src, filemode); err != nil {
-				return err
+		// the deepest part of the journalled path that still is a directory in the buffer
+		for dir := src; dir != "." && dir != "/"; dir = path.Dir(dir) {
+			if c.bufferFS.IsDir(dir) {
+				if err = c.remoteFS.MkdirAll(dir, filemode); err != nil {
+					return err
+				}
+				break
 			}
 		}
 	}
